@@ -20,8 +20,11 @@ Print Assumptions C15_step_refines.
 
 (* any history of well-targeted edits (delete, remove, replace_with, insert, append,
    rename, string of a command / of an environment, argument-list selection); new material
-   = arbitrary fresh expressions and strings.  _partial: well-targeted includes that the
-   holder accepts contents (see C15_rename_item_refuted). *)
+   = arbitrary fresh expressions and strings.  Well-targeted (op_ok): the target exists;
+   insert / append aim at something that accepts contents (an environment, a group, an
+   \item, or a command that already holds contents).  _partial: for replace_with it also
+   demands that the holder accepts contents once the child is out -- see
+   C15_replace_only_child_of_renamed_item_refuted for the one case where it does not. *)
 Theorem C15_refines_partial : forall ops t t',
   ops_ok t ops -> run_ops t ops = Done t' ->
   estr t' = ref_str (fold_left ref_step (map op_abs ops) (abs t)).
@@ -56,19 +59,38 @@ Theorem untargeted_unchanged : forall root p h i k new root',
 Proof. exact EditProofs.untargeted_unchanged. Qed.
 Print Assumptions untargeted_unchanged.
 
-(* "any sequence of edits (... rename ...)": after renaming an \item its contents are still
-   part of the tree and of str(), but the command now "has no children": deleting one of
-   them raises TypeError, where the reference model deletes it *)
-Theorem C15_rename_item_refuted :
-  exists (t t1 : expr) (hp : path) (i : nat) (x : expr),
+(* repaired in /repo a1e735f (TexCmd._supports_contents: name == 'item' or non-empty
+   contents): a renamed \item keeps accepting edits of the contents it holds.  Formerly
+   C15_rename_item_refuted. *)
+Theorem C15_rename_item_then_delete :
+  let t := parsed doc_item in
+  let o1 := ORename [SBody 0; SBody 0] s_foo in
+  let o2 := ODelete [SBody 0; SBody 0] 1 in
+  ops_okb t [o1; o2] = true /\
+  exists t1 t2 x,
+    apply_op t o1 = Done t1 /\
+    get t1 [SBody 0; SBody 0; SBody 1] = Some x /\ is_node x = true /\
+    apply_op t1 o2 = Done t2 /\
+    estr t2 = s_item_renamed_deleted /\
+    ref_str (ref_step (abs t1) (op_abs o2)) = estr t2.
+Proof. exact EditProofs.C15_rename_item_then_delete. Qed.
+Print Assumptions C15_rename_item_then_delete.
+
+(* still false of "any sequence of edits": replacing the ONLY content of a renamed \item.
+   replace = holder.insert(holder.remove(x), ...): the removal empties the command, which
+   then no longer supports contents, insert raises TypeError -- after the child is gone
+   (Partial: exception with a changed tree).  The reference model replaces. *)
+Theorem C15_replace_only_child_of_renamed_item_refuted :
+  exists (t t1 t2 : expr) (x : expr),
     apply_op t (ORename [SBody 0; SBody 0] s_foo) = Done t1 /\
     op_ok t (ORename [SBody 0; SBody 0] s_foo) = true /\
-    op_ok t (ODelete hp i) = true /\
-    get t1 (hp ++ [SBody i]) = Some x /\ is_node x = true /\
-    apply_op t1 (ODelete hp i) = Raise ETypeError /\
-    ref_str (ref_step (abs t1) (op_abs (ODelete hp i))) <> estr t1.
-Proof. exact EditProofs.C15_rename_item_refuted. Qed.
-Print Assumptions C15_rename_item_refuted.
+    get t1 [SBody 0; SBody 0; SBody 0] = Some x /\ is_node x = true /\
+    apply_op t1 (OReplaceWith [SBody 0; SBody 0] 0 [EStr s_S]) = Partial ETypeError t2 /\
+    estr t2 = s_item1_lost /\
+    ref_str (ref_step (abs t1) (op_abs (OReplaceWith [SBody 0; SBody 0] 0 [EStr s_S])))
+      = s_item1_wanted.
+Proof. exact EditProofs.C15_replace_only_child_of_renamed_item_refuted. Qed.
+Print Assumptions C15_replace_only_child_of_renamed_item_refuted.
 
 Theorem untargeted_example :
   let root := parsed doc_twins in
